@@ -89,6 +89,9 @@ def cval(v, ctype):
         return '0'
     s = str(v)
     s = re.sub(r'^(-?\d+)[uUlL]+$', r'\1', s)
+    s = re.sub(r'^/\*enum\*/', '', s)
+    if re.match(r'^[A-Za-z_]\w*$', s) and s not in ('TRUE', 'FALSE', 'true', 'false'):
+        return s      # enum constant
     if s in ('TRUE', 'true'):
         return '1'
     if s in ('FALSE', 'false'):
@@ -150,6 +153,7 @@ def try_replay(path, verbose=False):
                 if lit is None or pth.endswith('$pad') or '$pad' in pth:
                     continue
                 pth2 = re.sub(r'\[(\d+)l\]', r'[\1]', pth)
+                pth2 = re.sub(r'\$anon\d+\.', '', pth2)      # anonymous union members
                 pre_decls.append('  %s%s = %s;' % (var, pth2, lit))
             args.append((ty, nm, ('%s' % var) if idx else ('&%s' % var)))
             continue
